@@ -171,7 +171,11 @@ impl Accept {
                 Some(WakerInterest::WorkerAvailable(idx)) => {
                     drop(guard);
 
-                    self.avail.set_available(idx, true);
+                    // A faulted worker that has already been removed can still deliver a late
+                    // notification; marking it available would leave a bit no handle owns.
+                    if self.handles.iter().any(|handle| handle.idx() == idx) {
+                        self.avail.set_available(idx, true);
+                    }
 
                     if !self.paused {
                         self.accept_all(sockets);
